@@ -5,8 +5,12 @@ From Verif Require Import Lib.Wire C11.Model C11.Spec C11.ModelEvict C11.SpecEvi
 Import ListNotations.
 Open Scope Z_scope.
 
+(* the wire carries the cpu usage samples in milli-cores; the code sees them as float64 cores *)
+Definition cfg_of (i : einput) : ecfg := cpu_cfg_sample (ei_cfg i).
+Definition pods_of (i : einput) : list epod := map cpu_sample (ei_pods i).
+
 Definition model_eobs (i : einput) : eobs :=
-  let c := ei_cfg i in let pods := ei_pods i in
+  let c := cfg_of i in let pods := pods_of i in
   mkEobs (map p_id (build_be_cpu 0 pods))
          (if c_aprioF c then map p_id (build_prio 1 (c_aprio c) req pods) else [])
          (if c_evthrF c then map p_id (build_prio 2 (c_evthr c) p_used pods) else [])
@@ -15,7 +19,7 @@ Definition model_eobs (i : einput) : eobs :=
 Definition run_case (inp : list Z) : list Z := enc_eobs (model_eobs (dec_einput inp)).
 
 Definition lists_code (i : einput) (o : eobs) : Z :=
-  let c := ei_cfg i in let pods := ei_pods i in
+  let c := cfg_of i in let pods := pods_of i in
   let c0 := list_code (eligible_be 0) be_cpu_less pods (eo_l0 o) in
   let c1 := list_code (eligible_prio 1 (c_aprio c)) (prio_less req) pods (eo_l1 o) in
   let c2 := list_code (eligible_prio 2 (c_evthr c)) (prio_less p_used) pods (eo_l2 o) in
@@ -26,7 +30,7 @@ Definition prop_case (inp obs : list Z) : Z :=
   let o := dec_eobs obs in
   if negb (eq_listZ (enc_eobs o) obs) then 9
   else if negb (lists_code i o =? 0) then lists_code i o
-  else strategy_code (cpu_ptasks (ei_cfg i) (ei_be i) (ei_pods i)) (eo_wevs o).
+  else strategy_code (cpu_ptasks (cfg_of i) (ei_be i) (pods_of i)) (eo_wevs o).
 
 Definition nontrivial_case (inp : list Z) : bool :=
   (0 <? Z.of_nat (length (eo_wevs (model_eobs (dec_einput inp))))).
